@@ -92,8 +92,9 @@ Inductive op :=
 | OFind (k : Z) | OHas (k : Z) | OCount (k : Z)
 | OFront | OBack
 | OSel (b : bool)                   (* two containers; every other operation acts on the selected one *)
-| OCopy                             (* selected := other   (operator= / copy construction; Map only) *)
-| OBulk.                            (* selected.insert(other)                              (Map only) *)
+| OCopy                             (* selected := other   (operator= / copy construction; Map and MultiMap) *)
+| OBulk                             (* selected.insert(other)   (Map only; MultiMap has no such member) *)
+| OSelf.                            (* selected = selected      (self-assignment: nothing may change) *)
 
 Record sstate := { s_a : list entry; s_b : list entry; s_cur : bool; s_next : nat }.
 Definition s_init : sstate := {| s_a := []; s_b := []; s_cur := false; s_next := O |}.
@@ -154,15 +155,12 @@ Definition spec_step (f : flavour) (st : sstate) (o : op) (choice : nat) : sstat
   | OFront => (st, RVal (option_map eval (hd_error l)))
   | OBack => (st, RVal (option_map eval (last_error l)))
   | OSel b => ({| s_a := s_a st; s_b := s_b st; s_cur := b; s_next := n |}, RNone)
-  | OCopy =>
-      match f with
-      | FMap => let src := s_other st in (s_set st (renumber n src) (n + length src)%nat, RNone)
-      | FMulti => (st, RNone)
-      end
+  | OCopy => let src := s_other st in (s_set st (renumber n src) (n + length src)%nat, RNone)
   | OBulk =>
       match f with
       | FMap => let '(l', n') := s_bulk f (s_other st) l n in (s_set st l' n', RNone)
       | FMulti => (st, RNone)
       end
+  | OSelf => (st, RNone)
   end.
 
